@@ -66,22 +66,38 @@ SPEC = {
                     'the merges that produced it need an F for every chain they keep, so this holds as long as the home-chain config '
                     'did not lose a chain between two rounds; since F13d validation rejects observations mentioning a chain without F and '
                     'the GetMessages observation repeats the pending reports, so without it every honest GetMessages observation is rejected'],
-    'level_text': 'Proof: Coq theorems over executable models of commit/execute Plugin.Observation (role behaviour of every processor incl. '
-                  'the reader-existence guards of pkg/reader/ccip.go, in the result monad) and Plugin.ValidateObservation: C11_commit - for all '
-                  'role assignments, oracles, reader states, failing-call patterns and phases the commit observation is produced without panic '
-                  'and accepted; C11_exec_valid / C11_exec_no_panic - whatever the execute plugin produces is accepted, never a panic; '
-                  'C11_exec - produced and accepted whenever all calls succeed, for every role; pre-repair functions refuted (F05, F18a, F18b, F18c, F18d). Correspondence: real plugins per oracle over role-limited readers, '
-                  'every i against every j, every run. Histories: C11_history_round / C11_history_commit / C11_history_exec - for EVERY list of poller events '
-                  '(Start, successful / failed / partial fetches, reads, Close) interleaved with rounds, a round is answered from the latest successfully '
-                  'fetched configuration alone (induction over the event list through the C18 snapshot theorem), so the honest observation of round k is '
-                  'accepted by every validation that sees the same latest configuration, whatever the role map was before; C11_history_role_map - every '
-                  'getter / ChainSupport answer after any event list is the Roles accessor on that configuration. Correspondence for histories: long-lived '
-                  'plugins on real pollers with the role map changing between rounds, judged per round',
-    'level_note': 'Trusted: Coq kernel, hand-written model, differential harness with scripted contract readers. No axioms.',
-    'modelled': 'commit.Plugin.Observation (discovery, merkleroot observer, tokenprice, chainfee processors), execute.Plugin.Observation '
-                '(getCommitReportsObservation, getMessagesObservation incl. readAllMessages and the costly-message observer, getFilterObservation), '
-                'ccipChainReader guards (DiscoverContracts, GetRmnCurseInfo, NextSeqNum, GetExpectedNextSequenceNumber, GetRMNRemoteConfig, '
-                'MsgsBetweenSeqNums, GetChainsFeeComponents, GetWrappedNativeTokenPriceUSD, GetChainFeePriceUpdate, CommitReportsGTETimestamp, '
-                'ExecutedMessageRanges, Nonces, LinkPriceUSD), both ValidateObservation functions; homeChainPoller (setState, getters) and '
-                'plugincommon.ChainSupport through the C18 model (Pollers.v) composed with Roles.v in RolesHist.v',
+    'level_text': 'Proof: 28 closed Coq theorems. 12 property theorems over executable models of commit / execute Plugin.Observation (role behaviour of every processor '
+                  'incl. the reader-existence guards of pkg/reader/ccip.go, in the result monad) and both ValidateObservation functions (one model Roles.v, shared with '
+                  'C12): C11_commit - for all role assignments, oracles, reader states, failing-call patterns and phases the commit observation is produced without panic '
+                  'and accepted by every oracle; C11_exec_valid / C11_exec_no_panic - whatever the execute plugin produces is accepted, never a panic; C11_exec - '
+                  'produced and accepted whenever all calls succeed, for every role (full strength since the repairs F18, F18c, F18d). Histories: for EVERY list of '
+                  'poller events (Start, successful / failed / partial fetches, reads, Close) interleaved with rounds, a round is answered from the latest successfully '
+                  'fetched configuration alone, so the honest observation of round k is accepted by every validation that sees the same latest configuration whatever the '
+                  'role map was before (C11_history_round, _commit, _exec; induction through the C18 snapshot theorem); every getter / ChainSupport answer is the Roles '
+                  'accessor on that configuration (C11_history_role_map). Unrepaired code refuted: F05 (token-price role check rejected honest partial readers), F18 '
+                  'family (panic / whole observation failing without destination access). Judge soundness (16 C11_judge_*): for each of the 6 sinks the executable '
+                  "property accepts the model's output and implies the Prop-level clause; ce_ok is stronger than C11_exec (errors only for a failing call on the oracle's "
+                  "OWN readers). Correspondence, every run: one real plugin per oracle (NewPlugin) over a real ccipChainReader limited to the oracle's chains, every "
+                  'observation fed to every validator; 4 or 7 LONG-LIVED plugins each on its own REAL home-chain poller over a scripted CCIPHome through 5..8 role-map '
+                  'changes of 15 kinds (incl. a change whose poll fails), every round and every poller / ChainSupport getter judged on the latest successfully fetched '
+                  'configuration. No translated leaf function (the validators range over Go maps and are refused by the translator). Partial: outside values_ok (e.g. a '
+                  'zero native price on chain) the whole observation is rejected for reasons other than roles and the clause is vacuous.',
+    'level_note': 'Trusted: Coq kernel, hand-written model and theorem statements, differential harness. Specific: contract readers, chain writers and the price reader '
+                  "are scripted fakes BELOW the real ccipChainReader (they answer only for chains of the oracle's role and fail exactly the scripted calls; the "
+                  'price-reader fake mirrors the guards of price_reader.go); in the history parts the home chain is the real poller and only the CCIPHome contract reader '
+                  'below it is scripted (the harness waits for two fetch attempts per poller after every change); message hasher and report codec are repository mocks, '
+                  'token data observer is the Noop one. Assumed: an oracle has readers / writers exactly for the chains of its role; all honest oracles hold the same '
+                  'home-chain view; RMN disabled, discovery enabled, no truncation; on-chain values are of the kind validation accepts from anybody (values_ok); retry '
+                  'queries only in the building phase; the previous execute outcome names only chains with a configured F (pending_known). No axioms.',
+    'technique': 'Coq theorems (produced-and-accepted for all roles; induction over poller event histories through the C18 snapshot theorem) over one hand-written '
+                 "Gallina model of both plugins' observation and validation paths; differential correspondence with proved judge on per-oracle real plugins over "
+                 'role-limited real chain readers and on long-lived plugins over the real home-chain poller',
+    'modelled': 'commit.Plugin.Observation (discovery, merkleroot observer, tokenprice, chainfee processors), execute.Plugin.Observation (getCommitReportsObservation, '
+                'getMessagesObservation incl. readAllMessages and the costly-message observer, getFilterObservation), ccipChainReader guards (DiscoverContracts, '
+                'GetRmnCurseInfo, NextSeqNum, GetExpectedNextSequenceNumber, GetRMNRemoteConfig, MsgsBetweenSeqNums, GetChainsFeeComponents, '
+                'GetWrappedNativeTokenPriceUSD, GetChainFeePriceUpdate, CommitReportsGTETimestamp, ExecutedMessageRanges, Nonces, LinkPriceUSD), both '
+                'ValidateObservation functions; homeChainPoller (setState, getters) and plugincommon.ChainSupport through the C18 model (Pollers.v) composed with '
+                'Roles.v in RolesHist.v. Nothing of this property is translated from source (validateObservedSequenceNumbers, validateMessageKeys, validateFChain loop '
+                'over Go maps: refused by the translator). Inputs of the model: the role map / chain configs (scripted CCIPHome answers), reader call results and '
+                'failures, the observation under validation',
 }
